@@ -535,8 +535,16 @@ func c09TlValues(c *Ctx, s *c09Session, p *c09Prog, r *prng.R) {
 		}
 		keep := sc.closure(nil, []string{d.res})
 		types, _ := c09SubSchema(p, keep)
-		for i := 0; i < per; i++ {
+		nvals := per
+		if len(cs) > nvals {
+			nvals = len(cs)
+		}
+		for i := 0; i < nvals; i++ {
 			v := g.value(ty, 0)
+			if len(cs) > 1 { // every constructor of the type in turn (chosen from the schema)
+				k := cs[i%len(cs)]
+				v = g.record(utils.ToCamelCase(k.name), k.fields, 0)
+			}
 			junk := []byte{}
 			if i%2 == 1 {
 				junk = r.Bytes(1 + r.Intn(9))
@@ -646,10 +654,52 @@ func c09TlbValues(c *Ctx, s *c09Session, p *c09Prog, seed uint64) {
 		if err != nil {
 			continue
 		}
-		vals := s.ask(sx.L(sx.A("tlb.r"), sx.A(p.pkg), sx.A(n), sx.N(seed&0xffffffffffff), sx.Nat(per)))
-		if vals.K != sx.KL {
-			c.Fail("c09.tlb", sx.L(sx.A("tlb"), sx.A(n), sx.Str(p.text)), "c09-tlb-driver", "no values for "+n+": "+trunc(vals.String(), 200))
-			continue
+		// the values are built inside the compiled driver (tlbdesc.Rand on the Go type); which
+		// alternatives they select is decided here from the schema: more batches are drawn until
+		// every Maybe was absent and present, every Either left and right, every constructor chosen
+		want, got := map[string]bool{}, map[string]bool{}
+		p.tlb.walkDecl(d, nil, "", want)
+		for k := range want { // alternatives below three nested choices multiply beyond any value budget
+			if strings.Count(k, "?")+strings.Count(k, "|")+strings.Count(k, "#") > 3 {
+				delete(want, k)
+			}
+		}
+		vals := sx.L()
+		covered := false
+		for batch := 0; batch < 8 && !covered; batch++ {
+			more := s.ask(sx.L(sx.A("tlb.r"), sx.A(p.pkg), sx.A(n), sx.N((seed+uint64(batch)*0x9e3779b9)&0xffffffffffff), sx.Nat(per)))
+			if more.K != sx.KL {
+				vals = more
+				break
+			}
+			for i := range more.List {
+				before := len(got)
+				p.tlb.walkDecl(d, &more.List[i], "", got)
+				if batch == 0 || len(got) > before {
+					vals.List = append(vals.List, more.List[i])
+				}
+			}
+			covered = true
+			for k := range want {
+				covered = covered && got[k]
+			}
+		}
+		if vals.K == sx.KL {
+			if covered {
+				c.Note("c09.coverage", "tlb|every-alternative-to-depth-3-selected", sx.L(sx.A("tlb"), sx.A(n), sx.Str(p.text)))
+			} else {
+				c.Note("c09.coverage", "tlb|some-alternative-to-depth-3-not-selected-in-8-batches", sx.L(sx.A("tlb"), sx.A(n), sx.Str(p.text)))
+				if os.Getenv("VERIF_C09_DEBUG") != "" {
+					var miss []string
+					for k := range want {
+						if !got[k] {
+							miss = append(miss, k)
+						}
+					}
+					sort.Strings(miss)
+					fmt.Fprintf(os.Stderr, "uncovered %s.%s: %v\n   %s\n", p.pkg, n, miss, p.tlb.byGo(n).text())
+				}
+			}
 		}
 		class := "tlb|" + c09TlbClass(d)
 		for _, v := range vals.List {
